@@ -56,7 +56,7 @@ PROPS = {
                 pending=['the I/O half (no file / process / network / import / dynamic execution) is not a theorem about the model: external-call whitelist tie + audit-hook monitor']),
     'C03': dict(obligations=lambda: P('SqProps.C03') + P('SqProps.C03Set') + T('SqTie.Consts', 'max_array_size_tie') + TIE_FN,
                 slices=['ops'], monitors=['c03'],
-                pending=['the global length bound as a run invariant (false as stated: concat / str->list conversions, findings D10 / D11 / D18); proved: every adder at the cap refuses and changes nothing, and conversely a successful push / insert had room and leaves every object within max(cap, its length before) (push_insert_keep_cap); and a successful index assignment had room and leaves its container within the cap (setitem_success_within_cap); the compound form c[k] op= v extends the ELEMENT c[k] unchecked (same family as D10)']),
+                pending=['the global length bound as a run invariant (false as stated: concat / str->list conversions, findings D10 / D11 / D18); proved: every adder at the cap refuses and changes nothing, and conversely a successful push / insert had room and leaves every object within max(cap, its length before) (push_insert_keep_cap); and a successful index assignment had room and leaves its container within the cap (setitem_success_within_cap); a slice read with any bounds and step returns at most as many elements as its source (slice_read_no_longer_than_source); the compound form c[k] op= v extends the ELEMENT c[k] unchecked (same family as D10)']),
     'C04': dict(obligations=lambda: P('SqProps.C04') + T('SqTie.Consts', 'numeric_types_tie') + TIE_FN,
                 slices=['num'], monitors=['c04'],
                 pending=['int / floor / ceil / one-argument round are the findings D13, sum over host ints D16 (unbounded by design of the code); min / max / abs / sum over decimals / round(x, n) / + - * / ** are proved']),
